@@ -13,8 +13,9 @@ base = json.load(open('/root/.vp/BASELINE.json'))
 tmp = tempfile.mkdtemp(prefix='pp_baseline_', dir='/var/tmp')
 wt = os.path.join(tmp, 'wt')
 try:
-    if rev == 'WORKTREE':
-        subprocess.check_call(['rsync', '-a', '--exclude', '.git', '--exclude', '__pycache__', '/repo/', wt + '/'])
+    if rev == 'WORKTREE' or os.path.isdir(rev):
+        src = '/repo' if rev == 'WORKTREE' else rev
+        subprocess.check_call(['rsync', '-a', '--exclude', '.git', '--exclude', '__pycache__', src.rstrip('/') + '/', wt + '/'])
     else:
         subprocess.check_call(['git', '-C', '/repo', 'worktree', 'add', '--detach', wt, rev], stdout=subprocess.DEVNULL, stderr=subprocess.DEVNULL)
     junit = os.path.join(tmp, 'junit.xml')
@@ -36,6 +37,6 @@ try:
         print(p.stdout[-6000:])
     sys.exit(1 if missing else 0)
 finally:
-    if rev != 'WORKTREE':
+    if rev != 'WORKTREE' and not os.path.isdir(rev):
         subprocess.call(['git', '-C', '/repo', 'worktree', 'remove', '--force', wt], stdout=subprocess.DEVNULL, stderr=subprocess.DEVNULL)
     shutil.rmtree(tmp, ignore_errors=True)
